@@ -13,6 +13,7 @@ use affinitree::pwl::iter::PolyhedraIter;
 use affinitree::tree::graph::{Tree, TreeIndex};
 use affinitree::tree::iter::{Bfs, DfsEdge, DfsNodeData, DfsPre, EdgeData, TraversalMut};
 use common::*;
+use affinitree::pwl::node::NodeState;
 use std::fmt::Write as _;
 use std::panic::AssertUnwindSafe;
 
@@ -379,6 +380,20 @@ fn poly_case(r: &mut Rng, id: usize, out: &mut String) {
         let label = r.below(2);
         if t.tree.tree_node(p).unwrap().children[label].is_some() {
             t.tree.remove_child(p, label);
+        }
+    }
+    // the traversal is a function of the links alone: cached feasibility states (here arbitrary ones, also Infeasible
+    // on inner nodes, as an earlier elimination leaves on a last remaining child) must not change what it yields
+    if r.chance(1, 3) {
+        let idxs: Vec<usize> = t.tree.node_indices().collect();
+        for i in idxs {
+            let st = match r.below(5) {
+                0 | 1 => NodeState::Infeasible,
+                2 => NodeState::Feasible,
+                3 => NodeState::FeasibleWitness(vec![gen_point(r, n_in)]),
+                _ => NodeState::Indeterminate,
+            };
+            t.tree.node_value_mut(i).unwrap().state = st;
         }
     }
     write!(out, "(case {} poly 2 {} (runs", id, sx_arena(&t.tree)).unwrap();
